@@ -68,6 +68,10 @@ def scenario(out, shape, sched, fmt=FMT):
     if len(shape) > 4 and shape[4] == "errfmt":
         # every data source on its error / fallback path in front of the usual fields (stdin is a terminal without utmp record)
         fmt = ERRFMT + fmt
+    if len(shape) > 4 and shape[4] == "utmp":
+        # stdin is a terminal WITH a login record carrying a remote address (the driver's private /run/utmp): %{ipaddr} walks the C
+        # library's process-wide utmp stream
+        fmt = b"%{ipaddr}|%{tty_username}|" + fmt
     oval = {"file": b"file:" + out.encode() + b"/log", "stdout": b"stdout", "stderr": b"stderr", "socket": b"socket:" + out.encode() + b"/sock"}[okind]
     opts = [(b"output", oval), (b"message_format", fmt)]
     if chain:
@@ -82,7 +86,7 @@ def scenario(out, shape, sched, fmt=FMT):
     ini = gen.render_ini(opts)
     ops = [drv.op("x", out + "/log"), drv.op("W", "log", out + "/log"), drv.op("S", 1, "pipe"), drv.op("S", 2, "pipe"), drv.op("K", "sock", out + "/sock"),
            drv.op("C", ini), drv.op_env([b"LOGNAME=lg", b"HOME=/root"]), drv.op("k", "0002")] + \
-          ([drv.op("S", 0, "pty")] if len(shape) > 4 and shape[4] == "errfmt" else []) + [drv.op("P")]
+          ([drv.op("S", 0, "pty")] if len(shape) > 4 and shape[4] in ("errfmt", "utmp") else []) + [drv.op("P")]
     flat = [x for p in sched for x in p]
     ops.append(drv.op("z", nt, *flat))
     for t in range(nt):
@@ -177,6 +181,15 @@ def run_sched(d, shape, sched, tsan=False):
     if len(lines) != nrec:
         raise Failure("%d records for %d deliverable calls (%s)" % (len(lines), nrec, what), {"records": [l[:120] for l in lines[:8]]}, key="records")
     seen = set()
+    if len(shape) > 4 and shape[4] == "utmp":
+        # every call is made on the same terminal: what the lone call afterwards reports is what each of them reports alone
+        alone = lines[-1].split(b"|")[:2]
+        if not re.match(rb"^10\.77\.\d+\.\d+$", alone[0]):
+            raise Failure("harness: the terminal's login record was not found by the lone call (%s)" % what, {"record": lines[-1][:200]}, key="harness")
+        for ln in lines[:-1]:
+            if ln.split(b"|")[:2] != alone:
+                raise Failure("%%{ipaddr}/%%{tty_username} of a concurrent call differ from what the same call reports alone (%s)" % what,
+                              {"record": ln[:200]}, {"ipaddr|tty_username": b"|".join(alone)}, key="isolation-utmp")
     for ln in lines[:-1]:
         f = ln.split(b"|")[-6:]
         if len(f) != 6:
@@ -223,6 +236,10 @@ def worker(args):
         if variant not in drivers:
             drivers[variant] = drv.Driver(ctx.run, _W["builds"][variant], extra_preload=[os.path.join(drv.BUILD, "libsched.so")], timeout_ms=30000)
         d = drivers[variant]
+        if len(shape) > 4 and shape[4] == "utmp":
+            if (variant, "utmp") not in drivers:
+                drivers[(variant, "utmp")] = drv.Driver(ctx.run, _W["builds"][variant], extra_preload=[os.path.join(drv.BUILD, "libsched.so")], timeout_ms=30000, utmp=utmp_file(ctx))
+            d = drivers[(variant, "utmp")]
         case = {"variant": variant, "shape": list(shape), "sched": [list(p) for p in sched]}
         try:
             trace, steps = run_sched(d, shape, sched, tsan=(variant == "ts-tsan"))
@@ -246,8 +263,17 @@ def worker(args):
     return local.export(), fails
 
 
+def utmp_file(ctx):
+    p = os.path.join(ctx.run.dir, "utmp.generated")
+    if not os.path.exists(p):
+        drv.make_utmp(p + ".tmp")
+        os.rename(p + ".tmp", p)
+    return p
+
+
 def steps_of(ctx, builds, shape):
-    d = drv.Driver(ctx.run, builds["ts-plain"], extra_preload=[os.path.join(drv.BUILD, "libsched.so")])
+    d = drv.Driver(ctx.run, builds["ts-plain"], extra_preload=[os.path.join(drv.BUILD, "libsched.so")],
+                   utmp=utmp_file(ctx) if len(shape) > 4 and shape[4] == "utmp" else None)
     try:
         trace, steps = run_sched(d, shape, [])
     finally:
@@ -372,7 +398,8 @@ def main():
         ctx.count("replay-1", ["replay"], sample=case)
         ctx.nontrivial.add("replay-2")
         if "variant" in case:
-            d = drv.Driver(ctx.run, builds[case["variant"]], extra_preload=[os.path.join(drv.BUILD, "libsched.so")], timeout_ms=30000)
+            d = drv.Driver(ctx.run, builds[case["variant"]], extra_preload=[os.path.join(drv.BUILD, "libsched.so")], timeout_ms=30000,
+                           utmp=utmp_file(ctx) if len(case["shape"]) > 4 and case["shape"][4] == "utmp" else None)
             try:
                 run_sched(d, tuple(case["shape"]), [tuple(p) for p in case["sched"]], tsan=(case["variant"] == "ts-tsan"))
                 print("replay: property holds for this case")
@@ -385,7 +412,8 @@ def main():
     shapes = [(2, 1), (2, 2), (3, 1)] if ctx.quick else [(2, 1), (2, 2), (3, 1), (2, 3), (3, 2), (4, 1), (4, 3)]
     # other outputs and filter chains (every libc call the library makes is a scheduling point as well)
     shapes += [(2, 1, "stdout", "none"), (2, 1, "socket", "pass"), (2, 1, "file", "droplast"), (2, 1, "stderr", "droplast"), (2, 1, "file", "mixed"),
-               (2, 1, "socket", "none", "big0"), (2, 1, "file", "none", "errfmt"), (2, 1, "file", "none", "errlog"), (2, 2, "file", "none", "nullargv")]
+               (2, 1, "socket", "none", "big0"), (2, 1, "file", "none", "errfmt"), (2, 1, "file", "none", "errlog"), (2, 2, "file", "none", "nullargv"),
+               (2, 1, "file", "none", "utmp")]
     if not ctx.quick:
         shapes += [(3, 1, "stdout", "pass"), (2, 2, "file", "droplast"), (2, 2, "socket", "none"), (3, 1, "stderr", "none")]
     for shape in shapes:
